@@ -10,5 +10,6 @@ CONSTANTS
   MaxHist = 1000
   AsFound_VarListCached = FALSE
   AsFound_TraceBreaksFunctions = FALSE
+  Hyp_IdResetPerModel = FALSE
 POSTCONDITION AllConsumed
 CHECK_DEADLOCK FALSE
